@@ -125,6 +125,45 @@ func init() {
 		res := w.ToStrs(wins)
 		return L(Strs(res), Bytes(flat))
 	}
+	Exec["bitword.FirstDiff/alias"] = func(a []V) string {
+		w := c08bw(a)
+		s := a[1].Str() // built once; b shares its memory
+		b := s[:a[2].Int()]
+		from, end := a[3].Int(), a[4].Int()
+		return L(Int(w.FirstDiff(s, b, from, end)), Int(w.FirstDiff(b, s, from, end)))
+	}
+	Exec["bitword.Session/reuse"] = func(a []V) string {
+		w := c08bw(a)
+		mx := 0
+		for _, x := range a[1].L {
+			if len(x.L) > mx {
+				mx = len(x.L)
+			}
+		}
+		buf := make([]byte, mx) // the caller's one word buffer
+		r1 := make([]string, len(a[1].L))
+		for i, x := range a[1].L {
+			ws := x.Bytes()
+			copy(buf, ws)
+			r1[i] = w.ToStr(buf[:len(ws)])
+			for j := range buf { // cleared for the next key
+				buf[j] = 0xee
+			}
+		}
+		bufs := make([][]byte, len(a[1].L))
+		for i, x := range a[1].L {
+			ws := x.Bytes()
+			bufs[i] = make([]byte, len(ws))
+			copy(bufs[i], ws)
+		}
+		r2 := w.ToStrs(bufs)
+		for _, b := range bufs {
+			for j := range b {
+				b[j] = 0xee
+			}
+		}
+		return L(Strs(r1), Strs(r2)) // rendered only now
+	}
 	Register("C08", genC08)
 }
 
@@ -496,6 +535,7 @@ func genC08(g *Gen) {
 	c08Lists(g)
 	c08Wide(g)
 	c08Hist(g)
+	c08Alias(g)
 }
 
 // c08Large: inputs whose byte / bit / word offsets cross 2^8 and 2^16 (narrowing conversions of
@@ -975,4 +1015,58 @@ func c08Hist(g *Gen) {
 		}
 	}
 	g.Exhaust = append(g.Exhaust, "ToStrs/flat: a buffer of 2*(8/n)+1 all-ones words cut into three adjacent windows at every pair of split points, and every prefix followed by the whole buffer, x 4 widths")
+}
+
+// c08Alias: arguments that share memory (b = a[:k]) and word buffers the caller reuses after the call.
+func c08Alias(g *Gen) {
+	for _, n := range c08Widths {
+		m := 8 / n
+		mx := byte(1<<uint(n) - 1)
+		var strs [][]byte
+		strs = append(strs, []byte{}, []byte{0x00}, []byte{0xff}, []byte{'a', 'b', 'c'})
+		for q := 0; q < g.N(16, 200); q++ {
+			strs = append(strs, g.R.Bytes(g.R.Range(1, 6), alphabets[g.R.Intn(len(alphabets))]))
+		}
+		for _, s := range strs {
+			la := len(s) * m
+			for k := 0; k <= len(s); k++ {
+				lb := k * m
+				ends := []int{-1, la + 3, la, lb, lb + 1, g.R.Intn(la + 1)}
+				for _, end := range ends {
+					for _, from := range []int{0, g.R.Intn(lb + 2)} {
+						g.Stat("alias-firstdiff")
+						ec := "in"
+						switch {
+						case end == -1:
+							ec = "-1"
+						case end > la:
+							ec = "beyond-a"
+						case end > lb:
+							ec = "beyond-b"
+						}
+						g.Do("bitword.FirstDiff/alias", L(Int(n), Bytes(s), Int(k), Int(from), Int(end)),
+							fmt.Sprintf("alias/fd/n%d/k0:%v/kfull:%v/end%s/from0:%v", n, k == 0, k == len(s), ec, from == 0))
+					}
+				}
+			}
+		}
+		for q := 0; q < g.N(40, 1500); q++ {
+			cnt := g.R.Range(1, 6)
+			wss := make([]string, cnt)
+			partial := false
+			for i := range wss {
+				ws := make([]byte, g.R.Range(1, 3*m+1))
+				for j := range ws {
+					ws[j] = byte(g.R.Intn(int(mx) + 1))
+				}
+				ws[0] = mx
+				if len(ws)%m != 0 {
+					partial = true
+				}
+				wss[i] = Bytes(ws)
+			}
+			g.Stat("hist-reuse")
+			g.Do("bitword.Session/reuse", L(Int(n), L(wss...)), fmt.Sprintf("reuse/n%d/cnt%d/partial%v", n, cnt, partial))
+		}
+	}
 }
